@@ -49,6 +49,8 @@ def run(ck):
     ck.rule("R3", "permutation loop: copy of bindings per permutation, used by sub-matches, committed only on success", floor=1)
     ck.rule("R4", "permutations only under is_commutative(); commutative list holds only commutative operators", floor=2)
     ck.rule("R5", "leaves and non-joker patterns are compared by equality; joker test comes first", floor=2)
+    ck.rule("R6", "expression equality is identity or a complete structural comparison, never a hash alone", floor=1)
+    expr_equality_rules(ck, "R6", m)
 
     E, P = fn.args.args[0].arg, fn.args.args[1].arg
     RES = fn.args.args[3].arg
@@ -416,3 +418,64 @@ def run(ck):
             # must precede the kind dispatch
             ok = ok and s.lineno < branches["ExprInt"].lineno
     ck.ob("R5", "match_expr:joker-first", ok, m.where(fn), "a joker pattern is not handled before the structural dispatch")
+
+
+def expr_equality_rules(ck, rid, m):
+    """Equality of expressions (what match_expr, test_set and every `in` / `==` on expressions rely on) is identity for interned
+    expressions and otherwise a COMPLETE structural comparison: on every path of Expr.__eq__ that can answer something else than
+    a constant, one conjunct of the answer compares the full printed structure (repr) or the pickling state of both sides.  A hash,
+    a size or a class comparison alone is not injective: two different expressions then compare equal and a joker is bound twice."""
+    from sa import symval
+    from sa.repo import AnalysisError
+    fn = m.func("Expr.__eq__")
+    ck.need(len(fn.args.args) == 2, "Expr.__eq__: unexpected signature")
+    S, O = fn.args.args[0].arg, fn.args.args[1].arg
+    COMPLETE = ("repr(%s)", "%s.__reduce__()", "%s.__getstate__()", "%s.__repr__()")
+    LOSSY = ("hash(%s)", "%s.__hash__()", "%s._hash", "%s.size", "%s._size", "%s.__class__", "type(%s)", "str(%s)", "%s._exprhash()")
+
+    def kind(c):
+        if isinstance(c, ast.Compare) and len(c.ops) == 1 and isinstance(c.ops[0], (ast.Eq, ast.Is)):
+            a, b = norm(c.left), norm(c.comparators[0])
+            for f in COMPLETE:
+                if set([a, b]) == set([f % S, f % O]):
+                    return "complete"
+            for f in LOSSY:
+                if set([a, b]) == set([f % S, f % O]):
+                    return "lossy"
+        return None
+    k = 0
+    for p in symval.paths(fn.body, env={}):
+        if p.kind != "return" or p.value is None:
+            continue
+        v = p.value
+        if isinstance(v, ast.Constant):
+            if v.value is True or v.value == 1:
+                # an unconditional "equal" needs identity (or a complete comparison) among the path's facts
+                conds = [(t, tv) for (t, tv) in p.conds]
+                ok = any(tv and ((isinstance(t, ast.Compare) and isinstance(t.ops[0], ast.Is) and set([norm(t.left), norm(t.comparators[0])]) == set([S, O]))
+                                 or kind(t) == "complete") for (t, tv) in conds)
+                k += 1
+                ck.ob(rid, "Expr.__eq__:equal-needs-identity-or-full-comparison", ok, m.where(fn),
+                      "Expr.__eq__ answers True on a path that established neither `self is other` nor a complete structural comparison")
+            continue
+        conj = v.values if isinstance(v, ast.BoolOp) and isinstance(v.op, ast.And) else [v]
+        kinds = [kind(c) for c in conj]
+        # facts of the path count as conjuncts too (`if repr(a) != repr(b): return False` before the answer)
+        for (t, tv) in p.conds:
+            if tv and kind(t):
+                kinds.append(kind(t))
+            if (not tv) and isinstance(t, ast.Compare) and len(t.ops) == 1 and isinstance(t.ops[0], (ast.NotEq, ast.IsNot)):
+                t2 = ast.Compare(left=t.left, ops=[ast.Eq()], comparators=t.comparators)
+                if kind(t2):
+                    kinds.append(kind(t2))
+        k += 1
+        if "complete" in kinds:
+            ck.ob(rid, "Expr.__eq__:answer-is-a-full-comparison", True, m.where(fn), "")
+        elif all(x == "lossy" for x in kinds[:len(conj)]):
+            ck.ob(rid, "Expr.__eq__:answer-is-a-full-comparison", False, m.where(fn),
+                  "Expr.__eq__ answers `%s` for two distinct objects: only a hash / size / class comparison, which different "
+                  "expressions can satisfy (hash collisions): pattern matching then reports a match that is not genuine and binds "
+                  "one joker to two expressions" % norm(v)[:80])
+        else:
+            raise AnalysisError("Expr.__eq__: the answer `%s` is a form this rule does not know" % norm(v)[:80])
+    ck.need(k >= 2, "Expr.__eq__: fewer than 2 answering paths understood (%d)" % k)
